@@ -9,7 +9,9 @@ import struct
 
 
 # ---------------------------------------------------------------------------------------------- Gallina printer
-def gal(t):
+def gal(t, pool=None):
+    """pool: dict bytes -> let-bound name; long byte literals are bound by `let` in front of the case because coqc
+    elaborates a numeral list ~50x faster when no expected type is pushed into it"""
     if t is None:
         return 'None'
     if t is True:
@@ -19,20 +21,32 @@ def gal(t):
     if isinstance(t, int):
         return '(%d)' % t if t < 0 else '%d' % t
     if isinstance(t, (bytes, bytearray)):
+        t = bytes(t)
         if len(t) == 0:
             return '[]'
-        if all(32 <= c <= 126 and c != 34 for c in t):
+        if len(t) <= 24 and all(32 <= c <= 126 and c != 34 for c in t):
             return '(zs "%s")' % t.decode('ascii')
+        if pool is not None and len(t) > 6:
+            if t not in pool:
+                pool[t] = 'b%d_' % len(pool)
+            return pool[t]
         return '[' + ';'.join('%d' % c for c in t) + ']'
     if isinstance(t, list):
-        return '[' + '; '.join(gal(x) for x in t) + ']'
+        return '[' + '; '.join(gal(x, pool) for x in t) + ']'
     if isinstance(t, tuple):
         if t[0] == 'pair':
-            return '(%s, %s)' % (gal(t[1]), gal(t[2]))
+            return '(%s, %s)' % (gal(t[1], pool), gal(t[2], pool))
         if len(t) == 1:
             return t[0]
-        return '(%s %s)' % (t[0], ' '.join(gal(x) for x in t[1:]))
+        return '(%s %s)' % (t[0], ' '.join(gal(x, pool) for x in t[1:]))
     raise TypeError('cannot print %r' % (t,))
+
+
+def with_pool(pool, body):
+    out = body
+    for lit, name in reversed(list(pool.items())):
+        out = 'let %s := [%s] in %s' % (name, ';'.join('%d' % c for c in lit), out)
+    return '(%s)' % out
 
 
 def some(x):
